@@ -49,7 +49,7 @@ theorem pairProvide_keep {w w' : World} {p : Nat} {P : PairSt} {sender : Nat} {f
   split at h
   · cases h
   simp only [bind_ok_iff, pure_ok_iff, Prod.mk.injEq] at h
-  obtain ⟨share', _, w1, h1, w2, h2, w3, h3, w4, h4, rfl, _⟩ := h
+  obtain ⟨share', _, w1, h1, w2, h2, w3, h3, _, _, w4, h4, rfl, _⟩ := h
   have k1 : Keep w w1 := by
     split at h1
     · exact (tokTransferFrom_same h1).1.keep
@@ -87,7 +87,7 @@ theorem pairReceive_swap {w : World} {p t from_ amount : Nat} {offer : Asset} {a
   · cases h
   rename_i h3
   simp only [bind_ok_iff, pure_ok_iff] at h
-  obtain ⟨⟨w', o⟩, hs, h⟩ := h
+  obtain ⟨_, _, ⟨w', o⟩, hs, h⟩ := h
   exact ⟨by simpa using h1, Decidable.not_not.mp h2, Decidable.not_not.mp h3, w', o, hs, h.symm⟩
 
 theorem pairReceive_withdraw {w : World} {p t from_ amount : Nat} {r : World × Out}
@@ -104,7 +104,7 @@ theorem pairReceive_withdraw {w : World} {p t from_ amount : Nat} {r : World × 
   · cases h
   rename_i h1
   simp only [bind_ok_iff, pure_ok_iff] at h
-  obtain ⟨⟨w', x0, x1⟩, hs, h⟩ := h
+  obtain ⟨_, _, ⟨w', x0, x1⟩, hs, h⟩ := h
   exact ⟨by simpa using h1, w', x0, x1, hs, h.symm⟩
 
 theorem pairReceive_routerOps {w : World} {p t from_ amount : Nat} {ops : List (Asset × Asset)} {mn to : Option Nat}
@@ -186,7 +186,7 @@ theorem pairExec_swap_native {w : World} {s p d amt : Nat} {funds : List (Nat ×
   · cases h
   rename_i P hP
   simp only [bind_ok_iff, pure_ok_iff] at h
-  obtain ⟨w0, h0, ⟨w', o⟩, h1, h2⟩ := h
+  obtain ⟨w0, h0, _, _, ⟨w', o⟩, h1, h2⟩ := h
   exact ⟨P, w0, w', o, hP, h0, h1, h2.symm⟩
 
 theorem pairExec_swap_token {w : World} {s p t amt : Nat} {funds : List (Nat × Nat)} {b ms to : Option Nat}
@@ -287,10 +287,8 @@ theorem routerSwapOps_keep {name : Asset → String} {w w' : World} {sender : Na
 
 theorem routerReceive_keep {name : Asset → String} {w w' : World} {from_ : Nat} {hk : Hook}
     (h : routerReceive name w from_ hk = .ok w') : Keep w w' := by
-  unfold routerReceive at h
-  split at h
-  · exact routerSwapOps_keep h
-  · cases h
+  obtain ⟨ops, mn, dst, rfl, _, _, h⟩ := routerReceive_ok h
+  exact routerSwapOps_keep h
 
 theorem routerAssertMin_ok {w : World} {sender : Nat} {a : Asset} {prev mn rcv : Nat} {u : Unit}
     (h : routerAssertMin w sender a prev mn rcv = .ok u) : sender = w.router := by
@@ -307,27 +305,29 @@ theorem routerExec_keep {name : Asset → String} {w w' : World} {sender : Nat} 
   obtain ⟨w0, h0, h⟩ := h
   refine (attach_same h0).1.keep.trans ?_
   cases m with
-  | swapOps ops mn to => exact routerSwapOps_keep h
-  | swapOp o a to => exact (routerHop_ok h).2
+  | swapOps ops mn to =>
+    simp only [bind_ok_iff] at h
+    obtain ⟨_, _, h⟩ := h
+    exact routerSwapOps_keep h
+  | swapOp o a to =>
+    simp only [bind_ok_iff] at h
+    obtain ⟨_, _, h⟩ := h
+    exact (routerHop_ok h).2
   | assertMin a prev mn rcv =>
     simp only [bind_ok_iff, pure_ok_iff] at h
-    obtain ⟨_, _, rfl⟩ := h
+    obtain ⟨_, _, _, _, rfl⟩ := h
     exact Keep.refl _
   | receive from_ amount hk => exact routerReceive_keep h
 
 theorem router_hop_only_self {name : Asset → String} {w w' : World} {s : Nat} {funds : List (Nat × Nat)}
     {o a : Asset} {to : Option Nat} (h : routerExec name w s funds (.swapOp o a to) = .ok w') : s = w.router := by
-  unfold routerExec at h
-  simp only [bind_ok_iff] at h
-  obtain ⟨w0, h0, h⟩ := h
+  obtain ⟨w0, h0, _, h⟩ := routerExec_swapOp_ok h
   exact (routerHop_ok h).1.trans (attach_same h0).1.router
 
 theorem router_assert_only_self {name : Asset → String} {w w' : World} {s : Nat} {funds : List (Nat × Nat)}
     {a : Asset} {prev m rcv : Nat} (h : routerExec name w s funds (.assertMin a prev m rcv) = .ok w') :
     s = w.router := by
-  unfold routerExec at h
-  simp only [bind_ok_iff, pure_ok_iff] at h
-  obtain ⟨w0, h0, _, h1, _⟩ := h
+  obtain ⟨w0, h0, _, h1, _⟩ := routerExec_assertMin_ok h
   exact (routerAssertMin_ok h1).trans (attach_same h0).1.router
 
 theorem facUpdateConfig_ok {w w' : World} {sender : Nat} {o tc pc : Option Nat}
@@ -337,6 +337,8 @@ theorem facUpdateConfig_ok {w w' : World} {sender : Nat} {o tc pc : Option Nat}
   split at h
   · cases h
   rename_i hs
+  split at h
+  · cases h
   injection h with h
   subst h
   exact ⟨Decidable.not_not.mp hs, rfl, rfl, rfl⟩
@@ -345,6 +347,8 @@ theorem facUpdateConfig_codes {w w' : World} {sender : Nat} {o tc pc : Option Na
     (h : facUpdateConfig w sender o tc pc = .ok w') :
     w'.tokenCode = tc.getD w.tokenCode ∧ w'.pairCode = pc.getD w.pairCode := by
   unfold facUpdateConfig at h
+  split at h
+  · cases h
   split at h
   · cases h
   injection h with h
